@@ -288,8 +288,8 @@ class C15(Property):
     design_ref = 'DESIGN.md section 10, C15'
     required_theorems = ('rejected_never_delivered', 'rejected_never_delivered_doc', 'stops_at_first_error', 'gate_rejection_raises',
                          'pstep_logOk')
-    level = 'partial'
-    level_text = ('Lean 4 theorems over the parser state machine (the C14 model): for every document and wherever parsing ends, '
+    level = 'proof'
+    level_text = ('PARTIAL. Lean 4 theorems over the parser state machine (the C14 model): for every document and wherever parsing ends, '
                   'every event that reached a handler is an event item that the validation gate accepted (with validation on), '
                   'and processing stops at the first rejected element, so nothing after it has any influence. The machine is '
                   'compared with the pull and push parsers on documents with token-level faults. That no exception outside the '
